@@ -6,8 +6,10 @@ if ! git diff --quiet; then echo "/repo has uncommitted changes"; exit 2; fi
 git apply /verif/seeded/$name/patch.diff 2>/dev/null || { git checkout -- . ; git reset -q; echo "patch does not apply to the current tree"; exit 2; }
 git reset -q
 cd /verif
+cp evidence/$prop.json /tmp/evidence-$prop.save 2>/dev/null
 ./check $prop $tier > /tmp/try-$name-$prop.out 2>&1; rc=$?
 git -C /repo checkout -- . 
+cp /tmp/evidence-$prop.save evidence/$prop.json 2>/dev/null
 git -C /repo status --short | grep -v '^??' 
 echo "seed=$name prop=$prop tier=$tier exit=$rc"
 grep -a -A3 "^VIOLATION" /tmp/try-$name-$prop.out | head -${4:-24}
